@@ -8,6 +8,7 @@ in order, in the effect list and the referent becomes ('after', effect-index, po
 import json
 
 from aval import AInt, AAgg, AFloat, ARef, ATop, AFn, ASym
+import interp
 from interp import Interp, Undecided, Panic, Budget, Unsupported, _static_frame, Frame
 
 
@@ -50,6 +51,9 @@ def strip_refs(t):
             return strip_refs(t[1])
         return tuple(strip_refs(x) for x in t)
     return t
+
+
+ITER_PATHS = {p for p in interp.INTRINSICS if 'iter' in p.lower()}
 
 
 class SymEval:
@@ -133,7 +137,7 @@ class SymEval:
             return None
         if path.startswith('core::panicking') or path.startswith('core::panic'):
             return None
-        if 'IntoIterator' in path or 'Iterator>::next' in path:
+        if 'IntoIterator' in path or 'Iterator>::next' in path or path in ITER_PATHS:
             return None   # modelled iterator protocol over literal arrays
         ga = json.dumps(rargs, sort_keys=True) if rargs else ''
         body = self.prog.bodies.get(path)
